@@ -22,6 +22,7 @@ from __future__ import annotations
 import ast
 from typing import Optional
 
+from sa.effects import MUTATORS, PURE_BUILTINS, PURE_EXT, PURE_METHODS, Purity, _calls_of, _flat, _own_exprs, _store_targets
 from sa.excflow import Escape
 from sa.flow import FuncRef, Program
 from sa.pyfacts import Unknown, attr_chain, call_name, get_kw, norm, stmts_of, walk_no_nested
@@ -33,13 +34,6 @@ LEVEL = "other"
 L_ATTRS = {"_quic_logger", "quic_logger", "quic_logger_frames", "secrets_log_file"}
 L_PARAMS = {"quic_logger", "quic_logger_frames", "secrets_log_file"}
 L_MODULE = "quic.logger"
-PURE_BUILTINS = {
-    "len", "str", "int", "float", "bool", "hex", "repr", "sorted", "list", "dict", "tuple", "min", "max", "sum", "any", "all",
-    "isinstance", "enumerate", "zip", "range", "round", "abs", "bytes", "set", "frozenset", "reversed", "map", "filter", "type", "id",
-}
-PURE_METHODS = {"hex", "decode", "encode", "join", "format", "get", "items", "keys", "values", "copy", "upper", "lower", "startswith", "endswith", "split", "strip", "to_bytes", "total_seconds", "isoformat"}
-PURE_EXT = {"binascii.hexlify", "binascii.unhexlify", "time.time", "os.getpid", "json.dumps", "datetime.now"}
-MUTATORS = {"append", "add", "pop", "clear", "subtract", "shift", "insert", "extend", "update", "remove", "popleft", "appendleft", "discard", "setdefault", "sort", "reverse", "write", "flush", "close", "send", "put"}
 CONTROL = (ast.Return, ast.Raise, ast.Break, ast.Continue, ast.Assert, ast.Delete, ast.Global, ast.Nonlocal, ast.Import, ast.ImportFrom)
 
 
@@ -297,49 +291,6 @@ def _stmts_in(body):
                 yield from _stmts_in(h.body)
 
 
-def _store_targets(st):
-    if isinstance(st, ast.Assign):
-        for t in st.targets:
-            yield from _flat(t)
-    elif isinstance(st, (ast.AugAssign, ast.AnnAssign)):
-        yield from _flat(st.target)
-    elif isinstance(st, (ast.For, ast.AsyncFor)):
-        yield from _flat(st.target)
-    elif isinstance(st, (ast.With, ast.AsyncWith)):
-        for it in st.items:
-            if it.optional_vars is not None:
-                yield from _flat(it.optional_vars)
-
-
-def _flat(t):
-    if isinstance(t, (ast.Tuple, ast.List)):
-        for e in t.elts:
-            yield from _flat(e)
-    elif isinstance(t, ast.Starred):
-        yield from _flat(t.value)
-    else:
-        yield t
-
-
-def _own_exprs(st):
-    if isinstance(st, (ast.FunctionDef, ast.AsyncFunctionDef, ast.ClassDef)):
-        return
-    for field, value in ast.iter_fields(st):
-        if field in ("body", "orelse", "finalbody", "handlers", "cases"):
-            continue
-        vals = value if isinstance(value, list) else [value]
-        for v in vals:
-            if isinstance(v, ast.AST):
-                yield v
-
-
-def _calls_of(st):
-    for v in _own_exprs(st):
-        for n in walk_no_nested(v):
-            if isinstance(n, ast.Call):
-                yield n
-
-
 def _call_ok(prog, purity, fr, fl, c: ast.Call):
     f = c.func
     if isinstance(f, ast.Attribute) and root_is_L(f.value, fl.l_locals):
@@ -379,154 +330,6 @@ def _call_ok(prog, purity, fr, fl, c: ast.Call):
     if isinstance(f, ast.Attribute) and f.attr in PURE_METHODS and f.attr not in MUTATORS:
         return True, ""
     return False, f"callee of `{norm(f)[:60]}` is not resolved and not in the pure tables"
-
-
-class Purity:
-    """a function is pure when, transitively, it stores to no attribute/subscript of self, a
-    parameter or a global, calls no mutator method on them, and calls only pure callees"""
-
-    def __init__(self, prog: Program, l_class_funcs):
-        self.prog = prog
-        self.memo: dict[int, tuple] = {}
-        self.l_class_funcs = l_class_funcs
-
-    def ctor_pure(self, cls: str):
-        m = self.prog.classes.get(cls)
-        if m is None:
-            return True, ""
-        for fr in self.prog.class_methods(cls, "__init__", with_subclasses=False):
-            return self.pure(fr, ctor=True)
-        return True, ""
-
-    def pure(self, fr: FuncRef, ctor=False, depth=0):
-        k = id(fr.node)
-        if k in self.memo:
-            return self.memo[k]
-        self.memo[k] = (True, "")  # optimistic for recursion
-        res = self._pure(fr, ctor, depth)
-        self.memo[k] = res
-        return res
-
-    def callees(self, fr, c):
-        """resolved callees, including super().m()"""
-        f = c.func
-        if isinstance(f, ast.Attribute) and isinstance(f.value, ast.Call) and isinstance(f.value.func, ast.Name) and f.value.func.id == "super":
-            cls = getattr(fr.node, "_class", None)
-            out = []
-            if cls is not None:
-                for b in cls.bases:
-                    bn = attr_chain(b)
-                    if bn:
-                        out += self.prog.class_methods(bn.split(".")[-1], f.attr, with_subclasses=False)
-            return out
-        return self.prog.resolve_call(fr, c)
-
-    def returns_fresh(self, fr, depth=0) -> bool:
-        """every value returned is a container literal or a fresh local"""
-        if depth > 4:
-            return False
-        fresh = self.fresh_locals(fr, depth + 1)
-        rets = [st for st in stmts_of(fr.node) if isinstance(st, ast.Return) and st.value is not None]
-        if not rets:
-            return False
-        for r in rets:
-            v = r.value
-            if isinstance(v, (ast.List, ast.Dict, ast.Set, ast.ListComp, ast.DictComp, ast.SetComp, ast.JoinedStr, ast.Constant)):
-                continue
-            if isinstance(v, ast.Name) and v.id in fresh:
-                continue
-            return False
-        return True
-
-    def fresh_locals(self, fr, depth=0) -> set:
-        key = ("fresh", id(fr.node))
-        if key in self.memo:
-            return self.memo[key]
-        self.memo[key] = set()
-        node = fr.node
-        a = node.args
-        params = [x.arg for x in a.posonlyargs + a.args + a.kwonlyargs]
-        fresh = set()
-        multi = {}
-        for st in stmts_of(node):
-            tv = None
-            if isinstance(st, ast.Assign):
-                for t in st.targets:
-                    for n in ast.walk(t):
-                        if isinstance(n, ast.Name) and isinstance(n.ctx, ast.Store):
-                            multi[n.id] = multi.get(n.id, 0) + 1
-                if len(st.targets) == 1 and isinstance(st.targets[0], ast.Name):
-                    tv = (st.targets[0].id, st.value)
-            elif isinstance(st, ast.AnnAssign) and isinstance(st.target, ast.Name) and st.value is not None:
-                multi[st.target.id] = multi.get(st.target.id, 0) + 1
-                tv = (st.target.id, st.value)
-            elif isinstance(st, (ast.For, ast.AsyncFor)):
-                for n in ast.walk(st.target):
-                    if isinstance(n, ast.Name):
-                        multi[n.id] = multi.get(n.id, 0) + 2
-            if tv is None:
-                continue
-            name, v = tv
-            if isinstance(v, (ast.List, ast.Dict, ast.Set, ast.ListComp, ast.DictComp, ast.SetComp, ast.Constant, ast.JoinedStr, ast.Tuple, ast.BinOp)) or (isinstance(v, ast.Call) and isinstance(v.func, ast.Name) and (v.func.id in PURE_BUILTINS)):
-                fresh.add(name)
-            elif isinstance(v, ast.Call):
-                cals = self.callees(fr, v)
-                if cals and all(isinstance(c, FuncRef) and self.returns_fresh(c, depth + 1) for c in cals):
-                    fresh.add(name)
-        fresh = {x for x in fresh if multi.get(x, 0) == 1 and x not in params}
-        self.memo[key] = fresh
-        return fresh
-
-    def _pure(self, fr, ctor, depth):
-        if depth > 8:
-            return False, "call depth"
-        node = fr.node
-        a = node.args
-        params = [x.arg for x in a.posonlyargs + a.args + a.kwonlyargs]
-        fresh = self.fresh_locals(fr)
-
-        def rooted_outside(e):
-            n = e
-            while isinstance(n, (ast.Attribute, ast.Subscript)):
-                n = n.value
-            if isinstance(n, ast.Name):
-                if n.id in fresh:
-                    return False
-                if ctor and n.id == "self":
-                    return False
-                return True
-            return not isinstance(n, (ast.Call, ast.Constant, ast.List, ast.Dict, ast.Tuple))
-
-        for st in stmts_of(node):
-            for t in _store_targets(st):
-                if isinstance(t, ast.Name):
-                    continue
-                if rooted_outside(t):
-                    return False, f"writes `{norm(t)[:50]}`"
-            if isinstance(st, (ast.Global, ast.Nonlocal)):
-                return False, "global/nonlocal"
-            if isinstance(st, ast.Delete):
-                for t in st.targets:
-                    if not isinstance(t, ast.Name) and rooted_outside(t):
-                        return False, f"deletes `{norm(t)[:50]}`"
-            for c in _calls_of(st):
-                f = c.func
-                if isinstance(f, ast.Attribute) and f.attr in MUTATORS and rooted_outside(f.value):
-                    return False, f"mutates through `{norm(f)[:50]}`"
-                for cal in self.callees(fr, c):
-                    if isinstance(cal, FuncRef):
-                        if cal.node is node:
-                            continue
-                        p, why = self.pure(cal, depth=depth + 1)
-                        if not p:
-                            return False, f"calls {cal.ref} ({why})"
-                    elif cal[0] == "ctor":
-                        p, why = self.ctor_pure(cal[1])
-                        if not p:
-                            return False, f"constructs {cal[1]} ({why})"
-                    elif cal[0] == "c" and cal[1].split(".")[-1].startswith(("pull_", "push_", "seek")) and rooted_outside(f.value if isinstance(f, ast.Attribute) else f):
-                        return False, f"C method {cal[1]} on a non-local buffer"
-        return True, ""
 
 
 def _stmt_exprs(st):
